@@ -174,7 +174,9 @@ def make_body(inst, tier, path):
     from gcmpy.gcm_algorithm.gcm_algorithm_main import GCMAlgorithmMain
     from gcmpy.names.network_names import NetworkNames as NN
 
-    kind, how = path.split("-")
+    parts = path.split("-")
+    kind, how = parts[0], parts[1]
+    twice = len(parts) > 2 and parts[2] == "twice"   # observe the SECOND call on one generator object
     jds0 = [tuple(r) for r in inst["jds"]]
     if kind in ("fast", "network"):
         name, sizes, builds, names = fast_configs(tier)[inst["cfg"]]
@@ -206,6 +208,9 @@ def make_body(inst, tier, path):
             if type(alg) is not cls:
                 return {"wrong_class": type(alg).__name__}
         out = alg.random_clustered_graph(jds)
+        if twice:
+            del log[:]
+            out = alg.random_clustered_graph(jds)
         obs = {"log": log, "jds_after": list(jds)}
         if kind == "network":
             G = out.G
